@@ -5,27 +5,36 @@ C18 — Lazy pipelines evaluate to the eager result, at most once per node.
 `PF.Lazy.lrunTop` mirrors `Pipeline.run` with `lazy=True` (node table, `all_results` of node ids, the task graph's cache, edge
 registration in `_LazyFunction.__init__`), `PF.Lazy.evaluate` mirrors `_LazyFunction.evaluate` (`_evaluated/_result`), `PF.Lazy.den`
 is the memo-free, log-free value a node stands for and `PF.Pipe.compose` is the eager specification of C02.
-A *session* is a sequence of lazy calls, `evaluate()`s and `construct_dag()` blocks on one pipeline; `Sess` is its invariant.
+A *session* is a sequence of lazy calls (each with its own keyword arguments), `evaluate()`s and `construct_dag()` blocks on one
+pipeline, which may have a cache of its own (`cache_type`, `cache=True` functions); `Sess` is its invariant.  The hypothesis
+`PF.PipeCache.WF fs rank` (unique output names, consistent defaults, acyclic) is what `Pipeline.__init__` validates; the driver
+evaluates it on every generated pipeline.
 -/
 namespace PF.C18
 open PF PF.Pipe PF.Lazy
 
-/-- a new session satisfies the invariant (whatever the keyword arguments) -/
-theorem C18_session_init (fs : List Func) (kw : List (String × Val)) :
-    Sess fs kw { memo := [], used := [], usedNone := false, nodes := [], tg := none, ev := ⟨[], []⟩ } := by
-  refine ⟨?_, ?_, ?_, ?_, ⟨List.nodup_nil, ?_⟩⟩
+/-- a new session satisfies the invariant: no nodes, no task graph, and the pipeline's own cache (if it has one: `own = true`) is
+    empty; `cfn` are the functions with `cache=True` -/
+theorem C18_session_init (fs : List Func) (own : Bool) (cfn : List (List String)) :
+    Sess fs { memo := [], used := [], usedNone := false, nodes := [], tg := none, ev := ⟨[], []⟩,
+              own := if own then some [] else none, cfn := cfn } := by
+  refine ⟨?_, ?_, ?_, ?_, ⟨List.nodup_nil, ?_⟩, ?_, ?_⟩
   · intro i nd h; simp at h
-  · intro g h; cases h
+  · intro key a h; cases own <;> simp [entries] at h
   · intro g h; cases h
   · intro i w h; simp [dlookup] at h
   · intro i h; cases h
+  · intro i nd h; simp [dlookup] at h
+  · intro i h; simp [dlookup] at h
 
 /-- entering `construct_dag()` starts an empty graph with an empty cache; leaving it drops both -/
-theorem C18_session_dag (fs : List Func) (kw : List (String × Val)) (s : LSt) (h : Sess fs kw s) :
-    Sess fs kw (enterDag s) ∧ Sess fs kw (exitDag s) := by
-  refine ⟨⟨h.closed, ?_, ?_, h.done, h.log⟩, ⟨h.closed, ?_, ?_, h.done, h.log⟩⟩
-  · intro g hg key a hmem
-    simp only [enterDag, Option.some.injEq] at hg; subst hg; cases hmem
+theorem C18_session_dag (fs : List Func) (s : LSt) (h : Sess fs s) :
+    Sess fs (enterDag s) ∧ Sess fs (exitDag s) := by
+  have hsub : ∀ e, e ∈ (match s.own with | some c => c | none => []) → e ∈ entries s := fun e he => List.mem_append_right _ he
+  refine ⟨⟨h.closed, ?_, ?_, h.done, h.log, h.xclosed, h.logged⟩, ⟨h.closed, ?_, ?_, h.done, h.log, h.xclosed, h.logged⟩⟩
+  · intro key a hmem
+    simp only [enterDag, entries, List.nil_append] at hmem
+    exact h.cache key a (hsub _ hmem)
   · intro g hg
     simp only [enterDag, Option.some.injEq] at hg; subst hg
     refine ⟨?_, ?_⟩
@@ -34,25 +43,29 @@ theorem C18_session_dag (fs : List Func) (kw : List (String × Val)) (s : LSt) (
       constructor
       · intro h; cases h
       · intro h; cases h.1
-  · intro g hg; cases hg
+  · intro key a hmem
+    simp only [exitDag, entries, List.nil_append] at hmem
+    exact h.cache key a (hsub _ hmem)
   · intro g hg; cases hg
 
 /-- **Deferred.** A lazy call evaluates nothing: no node's `_evaluated` flag or `_result` changes and the call log is the
     one from before the call; nodes are only added. -/
-theorem C18_deferred (fs : List Func) (kw : List (String × Val)) (hu : Unique fs) (s : LSt) (hs : Sess fs kw s) (o : String)
+theorem C18_deferred (fs : List Func) (kw : List (String × Val)) (rank : String → Nat) (wf : PipeCache.WF fs rank) (s : LSt)
+    (hs : Sess fs s) (o : String)
     (a : LArg) (s' : LSt) (h : lrunTop fs kw (.name o) s = .ok (a, s')) :
-    s'.ev = s.ev ∧ (∃ ext, s'.nodes = s.nodes ++ ext) ∧ Sess fs kw s' := by
-  obtain ⟨hst, hi, _⟩ := lrunTop_name hu hs h
+    s'.ev = s.ev ∧ (∃ ext, s'.nodes = s.nodes ++ ext) ∧ Sess fs s' := by
+  obtain ⟨hst, hi, _⟩ := lrunTop_name wf hs h
   exact ⟨hst.2.1, hst.1, sess_after hs hst hi⟩
 
 /-- **`evaluate()` equals the eager result.** The object a lazy call returns stands for the value of the memo-free composition
     along the DAG (C02's specification), and whenever `evaluate()` returns, it returns that value — whatever was evaluated
     before, whatever is shared with other calls of the session, inside or outside `construct_dag()`. -/
-theorem C18_eager (fs : List Func) (kw : List (String × Val)) (hu : Unique fs) (s : LSt) (hs : Sess fs kw s) (o : String)
+theorem C18_eager (fs : List Func) (kw : List (String × Val)) (rank : String → Nat) (wf : PipeCache.WF fs rank) (s : LSt)
+    (hs : Sess fs s) (o : String)
     (a : LArg) (s' : LSt) (h : lrunTop fs kw (.name o) s = .ok (a, s')) :
     ∃ v, (∃ k, compose fs kw k o = .ok v) ∧ den s'.nodes a = some v ∧
       ∀ v' s'', evaluate a s' = .ok (v', s'') → v' = v := by
-  obtain ⟨hst, hi, v, k, hd, hc⟩ := lrunTop_name hu hs h
+  obtain ⟨hst, hi, v, k, hd, hc⟩ := lrunTop_name wf hs h
   have hs' := sess_after hs hst hi
   refine ⟨v, ⟨k, hc⟩, hd, ?_⟩
   intro v' s'' he
@@ -64,11 +77,32 @@ theorem C18_eager (fs : List Func) (kw : List (String × Val)) (hu : Unique fs) 
     obtain ⟨hd', _⟩ := evalArg_sound (eval_sound hs'.closed _) a s'.ev v1 e1 hs'.done hev
     rw [hd] at hd'; injection hd' with hd'; exact hd'.symm
 
+/-- **Whole-tuple requests.** `pipeline(("b", "c"), **kw)` returns (deferred: nothing is evaluated) an object that stands for the
+    raw tuple the function returns on the composition of its arguments, and `evaluate()` returns that tuple — also when the
+    object comes from a cache. -/
+theorem C18_whole (fs : List Func) (kw : List (String × Val)) (rank : String → Nat) (wf : PipeCache.WF fs rank) (s : LSt)
+    (hs : Sess fs s) (os : List String)
+    (a : LArg) (s' : LSt) (h : lrunTop fs kw (.whole os) s = .ok (a, s')) :
+    s'.ev = s.ev ∧ Sess fs s' ∧
+    ∃ f k vals, fs.find? (fun f => f.outputs = os) = some f ∧ composeArgsWith (compose fs kw k) fs kw f f.params = .ok vals ∧
+      den s'.nodes a = some (result f vals) ∧ ∀ v' s'', evaluate a s' = .ok (v', s'') → v' = result f vals := by
+  obtain ⟨hst, hi, f, k, vals, hfind, hk, hd⟩ := lrunTop_whole wf hs h
+  have hs' := sess_after hs hst hi
+  refine ⟨hst.2.1, hs', f, k, vals, hfind, hk, hd, ?_⟩
+  intro v' s'' he
+  simp only [evaluate] at he
+  split at he
+  · cases he
+  · next v1 e1 hev =>
+    injection he with he; injection he with h1 _; subst h1
+    obtain ⟨hd', _⟩ := evalArg_sound (eval_sound hs'.closed _) a s'.ev v1 e1 hs'.done hev
+    rw [hd] at hd'; injection hd' with hd'; exact hd'.symm
+
 /-- `evaluate()` of any object of the session keeps the session invariant, returns the value the object stands for, and only
     appends to the call log -/
-theorem C18_evaluate (fs : List Func) (kw : List (String × Val)) (s : LSt) (hs : Sess fs kw s) (a : LArg) (v : Val) (s' : LSt)
+theorem C18_evaluate (fs : List Func) (s : LSt) (hs : Sess fs s) (a : LArg) (v : Val) (s' : LSt)
     (h : evaluate a s = .ok (v, s')) :
-    den s.nodes a = some v ∧ Sess fs kw s' ∧ s'.nodes = s.nodes ∧ s'.tg = s.tg ∧ ∃ new, s'.ev.log = s.ev.log ++ new := by
+    den s.nodes a = some v ∧ Sess fs s' ∧ s'.nodes = s.nodes ∧ s'.tg = s.tg ∧ ∃ new, s'.ev.log = s.ev.log ++ new := by
   simp only [evaluate] at h
   split at h
   · cases h
@@ -78,21 +112,53 @@ theorem C18_evaluate (fs : List Func) (kw : List (String × Val)) (s : LSt) (hs 
     cases a with
     | val w =>
       simp [evalArg] at hev; obtain ⟨_, rfl⟩ := hev
-      exact ⟨hd, ⟨hs.closed, hs.cache, hs.graph, hds, hs.log⟩, rfl, rfl, [], by simp⟩
+      exact ⟨hd, ⟨hs.closed, hs.cache, hs.graph, hds, hs.log, hs.xclosed, hs.logged⟩, rfl, rfl, [], by simp⟩
     | ref i =>
       obtain ⟨⟨hli, _, _, hnew⟩, _⟩ := eval_once hs.closed _ i s.ev v1 e1 hs.log hev
-      exact ⟨hd, ⟨hs.closed, hs.cache, hs.graph, hds, hli⟩, rfl, rfl, hnew⟩
+      obtain ⟨hx, _⟩ := eval_exact hs.closed _ i s.ev v1 e1 hs.xinv hev
+      exact ⟨hd, ⟨hs.closed, hs.cache, hs.graph, hds, hli, hx.closed, hx.logged⟩, rfl, rfl, hnew⟩
 
 /-- **At most once.** In every state a session can reach — after any number of lazy calls and `evaluate()`s on any of the
     returned objects, however many consumers share a node — the log of invocations has no duplicates: no node's function
     (user function or output picker) is invoked twice. -/
-theorem C18_once (fs : List Func) (kw : List (String × Val)) (s : LSt) (hs : Sess fs kw s) : s.ev.log.Nodup := hs.log.1
+theorem C18_once (fs : List Func) (s : LSt) (hs : Sess fs s) : s.ev.log.Nodup := hs.log.1
+
+/-- **Exactly the needed nodes.** `evaluate()` of an object invokes exactly the nodes the object depends on (`Needs`: the object
+    itself and, transitively, the `_LazyFunction`s among the arguments) that have not been invoked before — no needed node is
+    skipped, no other node is touched — and afterwards every node the object depends on is evaluated.  With `C18_once` (no
+    duplicates in the log) and `C18_evaluate` (the log only grows): each needed function exactly once, however many consumers
+    share it and however the evaluations of objects that share nodes interleave. -/
+theorem C18_exact (fs : List Func) (s : LSt) (hs : Sess fs s) (a : LArg) (v : Val) (s' : LSt)
+    (h : evaluate a s = .ok (v, s')) :
+    (∀ i, i ∈ s'.ev.log ↔ (i ∈ s.ev.log ∨ Needs s.nodes a i)) ∧ (∀ i, Needs s.nodes a i → (dlookup s'.ev.done i).isSome) := by
+  simp only [evaluate] at h
+  split at h
+  · cases h
+  · next v1 e1 hev =>
+    injection h with h; injection h with h1 h2; subst h1; subst h2
+    cases a with
+    | val w =>
+      simp [evalArg] at hev; obtain ⟨_, rfl⟩ := hev
+      exact ⟨fun i => ⟨Or.inl, fun h => h.elim id (fun hn => (needs_val hn).elim)⟩, fun i hn => (needs_val hn).elim⟩
+    | ref j =>
+      obtain ⟨hx, hm, hr, hl⟩ := eval_exact hs.closed _ j s.ev v1 e1 hs.xinv hev
+      have hroot : (dlookup e1.done j).isSome := hr j (List.mem_singleton.mpr rfl)
+      refine ⟨fun i => ⟨?_, ?_⟩, fun i hn => needs_done hx.closed hroot hn⟩
+      · intro hi
+        rcases (hl i).mp hi with h | ⟨⟨j', hj', hn⟩, _⟩
+        · exact Or.inl h
+        · simp only [List.mem_singleton] at hj'; subst hj'; exact Or.inr hn
+      · rintro (h | hn)
+        · exact (hl i).mpr (Or.inl h)
+        · by_cases hd : dlookup s.ev.done i = none
+          · exact (hl i).mpr (Or.inr ⟨⟨j, List.mem_singleton.mpr rfl, hn⟩, hd⟩)
+          · exact (hl i).mpr (Or.inl (hs.logged i (isSome_of_not_none hd)))
 
 /-- **…however often `evaluate()` is called.** Evaluating an object again returns the same value and changes nothing (in
     particular invokes nothing). -/
-theorem C18_once_again (fs : List Func) (kw : List (String × Val)) (s : LSt) (hs : Sess fs kw s) (a : LArg) (v : Val) (s' : LSt)
+theorem C18_once_again (fs : List Func) (s : LSt) (hs : Sess fs s) (a : LArg) (v : Val) (s' : LSt)
     (h : evaluate a s = .ok (v, s')) : evaluate a s' = .ok (v, s') := by
-  obtain ⟨_, hs', hn, _, _⟩ := C18_evaluate fs kw s hs a v s' h
+  obtain ⟨_, hs', hn, _, _⟩ := C18_evaluate fs s hs a v s' h
   simp only [evaluate] at h ⊢
   split at h
   · cases h
@@ -112,11 +178,12 @@ theorem C18_once_again (fs : List Func) (kw : List (String × Val)) (s : LSt) (h
 /-- **The task graph.** After a lazy call inside `construct_dag()`, the recorded graph has an edge `(x, n)` exactly when `n` is a
     recorded node and `x` is a `_LazyFunction` among `n`'s arguments; every edge goes from an older to a newer node; hence
     there is no directed cycle. -/
-theorem C18_dag (fs : List Func) (kw : List (String × Val)) (hu : Unique fs) (s : LSt) (hs : Sess fs kw s) (o : String)
+theorem C18_dag (fs : List Func) (kw : List (String × Val)) (rank : String → Nat) (wf : PipeCache.WF fs rank) (s : LSt)
+    (hs : Sess fs s) (o : String)
     (a : LArg) (s' : LSt) (h : lrunTop fs kw (.name o) s = .ok (a, s')) (g : TG) (hg : s'.tg = some g) :
     (∀ x n, (x, n) ∈ g.edges ↔ (n ∈ g.gnodes ∧ ∃ nd, s'.nodes[n]? = some nd ∧ x ∈ nd.refs)) ∧
     (∀ x n, (x, n) ∈ g.edges → x < n) ∧ (∀ n, ¬ Path g.edges n n) := by
-  obtain ⟨_, hi, _⟩ := lrunTop_name hu hs h
+  obtain ⟨_, hi, _⟩ := lrunTop_name wf hs h
   obtain ⟨_, hedges⟩ := hi.graph g hg
   have hlt : ∀ x n, (x, n) ∈ g.edges → x < n := by
     intro x n he
@@ -144,6 +211,76 @@ def demo (dag : Bool) (n : Nat) : Option (List String × List (Nat × Nat)) :=
   | .ok (a, s1) =>
     let s2 := (List.range n).foldl (fun s _ => match evaluate a s with | .ok (_, s') => s' | .error _ => s) s1
     some (callNames s2.nodes s2.ev.log, match s2.tg with | some g => g.edges | none => [])
+
+/-- the demo pipeline satisfies the well-formedness hypothesis of the theorems -/
+example : PipeCache.WF [fD, fB, fA] (fun o => if o = "a" then 0 else if o = "b" ∨ o = "c" then 1 else if o = "d" then 2 else 0) := by
+  refine ⟨?_, ?_, ?_, ?_⟩
+  · intro f hf g hg o ho ho'
+    simp only [List.mem_cons, List.not_mem_nil, or_false] at hf hg
+    rcases hf with rfl | rfl | rfl <;> rcases hg with rfl | rfl | rfl <;> first | rfl | (exfalso; simp [fA, fB, fD] at ho ho'; rcases ho with rfl | rfl <;> simp at ho') | (exfalso; simp [fA, fB, fD] at ho ho'; subst ho; simp at ho')
+  · intro f hf g hg p v w hv hw
+    simp only [List.mem_cons, List.not_mem_nil, or_false] at hf hg
+    rcases hf with rfl | rfl | rfl <;> rcases hg with rfl | rfl | rfl <;> simp [fA, fB, fD] at hv hw
+    rw [hv.2, hw.2]
+  · intro o f hp pq hpq hb hprod
+    by_cases h1 : o = "d"
+    · subst h1
+      have : f = fD := by simpa [producer, fD, fB, fA] using hp.symm
+      subst this
+      simp [fD] at hpq
+      rcases hpq with rfl | rfl | rfl <;> decide
+    · by_cases h2 : o = "b" ∨ o = "c"
+      · have : f = fB := by rcases h2 with rfl | rfl <;> simpa [producer, fD, fB, fA] using hp.symm
+        subst this
+        simp [fB] at hpq
+        rcases hpq with rfl | rfl
+        · rcases h2 with rfl | rfl <;> decide
+        · simp [producer, fD, fB, fA] at hprod
+      · by_cases h3 : o = "a"
+        · subst h3
+          have : f = fA := by simpa [producer, fD, fB, fA] using hp.symm
+          subst this
+          simp [fA] at hpq
+          subst hpq
+          simp [producer, fD, fB, fA] at hprod
+        · exfalso
+          simp only [not_or] at h2
+          simp [producer, fD, fB, fA, h1, h2.1, h2.2, h3] at hp
+  · intro o; simp only [fuelFor, List.length_cons, List.length_nil]; split <;> (try split) <;> (try split) <;> omega
+
+/-- sessions for the non-vacuity of `C18_whole`, of the cache clauses with DIFFERENT keyword arguments inside one block, and of a
+    pipeline with a cache of its own: returned object per call, and the names invoked by evaluating all of them in order -/
+def demo2 (own : Bool) (dag : Bool) (calls : List (Req × List (String × Val))) : Option (List (Option Nat) × List String) :=
+  let s0' : LSt := { s0 with own := if own then some [] else none, cfn := [["a"], ["b", "c"], ["d"]] }
+  let step := fun (acc : Option (List LArg × LSt)) (c : Req × List (String × Val)) =>
+    match acc with
+    | none => none
+    | some (hs, s) => match lrunTop [fD, fB, fA] c.2 c.1 s with
+      | .error _ => none
+      | .ok (a, s1) => some (hs ++ [a], s1)
+  match calls.foldl step (some ([], if dag then enterDag s0' else s0')) with
+  | none => none
+  | some (hs, s1) =>
+    let s2 := hs.foldl (fun s a => match evaluate a s with | .ok (_, s') => s' | .error _ => s) s1
+    some (hs.map (fun a => match a with | .ref i => some i | .val _ => none), callNames s2.nodes s2.ev.log)
+
+-- whole tuple, then one of its names, in one block: the pick shares the tuple's node
+example : demo2 false true [(.whole ["b", "c"], [("x", .int 1)]), (.name "c", [("x", .int 1)])] =
+    some ([some 1, some 3], ["fa", "fb"]) := by decide
+-- different keyword VALUES in one block: nothing is shared; equal values: everything is
+-- (a hit on the tuple-output function creates new pick nodes, 7 and 8, over the shared tuple node)
+example : demo2 false true [(.name "b", [("x", .int 1)]), (.name "b", [("x", .int 2)]), (.name "b", [("x", .int 1)])] =
+    some ([some 2, some 6, some 8], ["fa", "fb", "fa", "fb"]) := by decide
+-- a supplied intermediate is never served from (or written to) the cache
+example : demo2 false true [(.name "d", [("x", .int 1)]), (.name "d", [("a", .int 5)])] =
+    some ([some 4, some 8], ["fa", "fb", "fd", "fb", "fd"]) := by decide
+-- a pipeline with its own cache, outside any block: the second request is answered from the cache
+example : demo2 true false [(.name "d", [("x", .int 1), ("y", .int 3)]), (.name "d", [("x", .int 1), ("y", .int 3)])] =
+    some ([some 4, some 4], ["fa", "fb", "fd"]) := by decide
+example : demo2 true false [(.name "a", [("x", .int 1)]), (.name "a", [("x", .int 1)]), (.name "a", [("x", .int 2)])] =
+    some ([some 0, some 0, some 1], ["fa", "fa"]) := by decide
+example : demo2 false false [(.name "d", [("x", .int 1)]), (.name "d", [("x", .int 1)])] =
+    some ([some 4, some 9], ["fa", "fb", "fd", "fa", "fb", "fd"]) := by decide
 
 example : demo false 0 = some ([], []) := by decide
 example : demo false 1 = some (["fa", "fb", "fd"], []) := by decide
